@@ -169,6 +169,37 @@ def run(chk, args):
                   inv="TypeOK Emit", view="")
         jobs.append(("sim", cfg_name(k), text, ["-simulate", "num=%d" % nsim, "-depth", str(depth + 2), "-seed", str(seed * 1000 + i)], 1, k))
 
+    # ---- 2a'. directed behaviours (spec/AppendableScript.tla): physical end of the file beyond its logical end (rewind below
+    # the flushed offset / preallocated file), unflushed bytes, Copy, Append, Flush, read-back, re-open, read-back
+    R = ("read", 0, 1)
+    scripts_rewind = [
+        [("append", 5, 0), ("flush", 0, 0), ("setoffset", 2, 0), ("append", 2, 0), ("copy", 0, 0), ("append", 2, 0), ("flush", 0, 0),
+         ("read", 0, 6), ("reopen", 0, 0), ("read", 0, 6), R],
+        [("append", 4, 0), ("sync", 0, 0), ("setoffset", 0, 0), ("append", 1, 0), ("copy", 0, 0), ("append", 1, 0), ("copy", 0, 0),
+         ("append", 3, 0), ("sync", 0, 0), ("reopen", 0, 0), ("read", 0, 5)],
+        [("append", 3, 0), ("flush", 0, 0), ("append", 2, 0), ("setoffset", 1, 0), ("append", 1, 0), ("copy", 0, 0), ("append", 1, 0),
+         ("flush", 0, 0), ("read", 0, 3), ("reopen", 0, 0), ("read", 0, 3)],
+    ]
+    scripts_pre = [
+        [("setoffset", 0, 0), ("append", 2, 0), ("copy", 0, 0), ("append", 1, 0), ("flush", 0, 0), ("read", 0, 3), ("reopen", 0, 0),
+         ("read", 0, 3), R, R, R],
+        [("setoffset", 0, 0), ("append", 3, 0), ("flush", 0, 0), ("setoffset", 1, 0), ("append", 1, 0), ("copy", 0, 0), ("append", 2, 0),
+         ("sync", 0, 0), ("read", 0, 4), ("reopen", 0, 0), ("read", 0, 4)],
+    ]
+    directed = []
+    modes = rm if thorough else None
+    for di, (multi, pre) in enumerate([(False, 0), (False, 4), (True, 0), (True, 4)]):
+        for (rt, au) in (modes or [(False, False) if di in (0, 3) else rm[(seed + di) % 3]]):
+            directed.append(dict(multi=multi, F=4 if multi else 64, W=8, mo=1, retry=rt, auto=au, pre=pre))
+    for k in directed:
+        scr = scripts_pre if k["pre"] else scripts_rewind
+        text = mk(multi=k["multi"], F=k["F"], W=k["W"], mo=k["mo"], retry=k["retry"], auto=k["auto"], pre=k["pre"], mb=16, ma=6,
+                  mops=len(scr[0]), mc=5 if k["multi"] else 0, code=code, emit=len(scr[0]), inv="TypeOK Emit", view="")
+        text = text.replace("SPECIFICATION Spec", "CONSTANT Scripts <- ScriptsV\nSPECIFICATION ScriptSpec")
+        root = ("---- MODULE C17Scripts ----\nEXTENDS AppendableScript\nScriptsV == {%s}\n====\n"
+                % ", ".join("<<%s>>" % ", ".join('<<"%s", %d, %d>>' % e for e in sc) for sc in scr))
+        jobs.append(("script", cfg_name(k), text, [], 1, dict(k, root=root, n=len(scr))))
+
     def tlc_job(j):
         kind, name, text, extra, workers, meta = j
         r = _tlc_job(j)
@@ -177,8 +208,11 @@ def run(chk, args):
 
     def _tlc_job(j):
         kind, name, text, extra, workers, meta = j
-        return j, vlib.run_tlc("Appendable", "c17.cfg", workers=workers, timeout=3000 if thorough else 1500, extra=extra,
-                               files=[("c17.cfg", text)], javaopts=JAVA, tag="C17tlc")
+        files = [("c17.cfg", text)]
+        if kind == "script":
+            files.append(("C17Scripts.tla", meta["root"]))
+        return j, vlib.run_tlc("C17Scripts" if kind == "script" else "Appendable", "c17.cfg", workers=workers,
+                               timeout=3000 if thorough else 1500, extra=extra, files=files, javaopts=JAVA, tag="C17tlc")
 
     with cf.ThreadPoolExecutor(8 if thorough else 7) as ex:
         results = list(ex.map(tlc_job, jobs))
@@ -205,6 +239,21 @@ def run(chk, args):
                 replay_sets.setdefault("cex " + cfg_name(k), (k, []))[1].append({"ops": ops, "origin": "tlc-counterexample:" + meta["inv"]})
                 chk.cov.setdefault("counterexamples", []).append({"cfg": cfg_name(k), "invariant": meta["inv"],
                                                                   "ops": [(o["op"], o["a"], o["b"]) for o in ops]})
+        elif kind == "script":
+            if res.error or res.violation:
+                raise MachineryFault("directed behaviours %s: %s %s\n%s" % (name, res.error, res.violation, res.out[-1500:]))
+            bs, seen = [], set()
+            for b in vlib.printed_json(res.out):
+                key = json.dumps([(o["op"], o["a"], o["b"], o["ideal"]) for o in b["ops"]])
+                if key not in seen:
+                    seen.add(key)
+                    b["origin"] = "tlc-directed"
+                    bs.append(b)
+            if len(bs) < meta["n"]:
+                raise MachineryFault("directed behaviours %s: TLC completed %d of %d scripts (a step was not enabled)\n%s" % (name, len(bs), meta["n"], res.out[-800:]))
+            chk.add_tlc(res, "directed " + name)
+            chk.cov["directed_behaviours"] = chk.cov.get("directed_behaviours", 0) + len(bs)
+            replay_sets.setdefault("directed " + name, (meta, []))[1].extend(bs)
         else:
             if res.error or res.violation:
                 raise MachineryFault("simulation %s: %s %s\n%s" % (name, res.error, res.violation, res.out[-1500:]))
@@ -229,7 +278,7 @@ def run(chk, args):
     rjobs = []
     for i, (name, (k, bs)) in enumerate(sorted(replay_sets.items())):
         comp = [comp_all[(seed + i) % 4], comp_all[(seed + i + 2) % 4]] if thorough else [comp_all[(seed + i) % 4]]
-        if name.startswith("cex"):
+        if name.startswith("cex") or name.startswith("directed"):
             comp = []
         inp = {"cfg": {"Name": name, "Multi": k["multi"], "F": k["F"], "W": k["W"], "MaxOpen": k["mo"], "Retry": k["retry"], "Auto": k["auto"],
                        "Pre": k["pre"], "RB": (k["F"] + 1 if k["multi"] else 2), "Comp": comp, "AltOpts": (seed + i) % 2 == 0},
